@@ -54,7 +54,15 @@ _BUILTIN_PARENTS = {
 
 
 def exc_class(label: str) -> str:
-    return label.split('(')[0]
+    return label.split('@')[0].split('(')[0]
+
+
+def plain(label: str) -> str:
+    return label.split('@')[0]
+
+
+def origin_of(label: str) -> str:
+    return label.split('@', 1)[1] if '@' in label else ''
 
 
 class ExcFlow:
@@ -257,7 +265,7 @@ class ExcFlow:
                     if lab.startswith('<rethrow'):
                         labels |= self._rethrown(fi, node, ctx, lab)
                     else:
-                        labels.add(lab)
+                        labels.add(lab + '@' + fi.qualname)
                 via = ''
             else:
                 labels = set()
@@ -288,7 +296,7 @@ class ExcFlow:
                     if not any(tt is t and r == 'body' for tt, r in ctx2):
                         continue
                     if kind == 'raise':
-                        labs = {l for l in payload if not l.startswith('<rethrow')}
+                        labs = {l + '@' + fi.qualname for l in payload if not l.startswith('<rethrow')}
                     else:
                         labs = set()
                         for c in self._callee_funcs(payload):
@@ -313,9 +321,14 @@ class ExcFlow:
                 return caught
         return set()
 
-    def escapes(self, qualname: str) -> set[str]:
+    def escapes_o(self, qualname: str) -> set[str]:
+        """labels with their origin function: 'ValueError@exabgp.x.f'"""
         self.solve()
         return set(self._esc.get(qualname, set()))
+
+    def escapes(self, qualname: str) -> set[str]:
+        self.solve()
+        return {plain(l) for l in self._esc.get(qualname, set())}
 
     def witness(self, qualname: str, label: str, depth: int = 8) -> list[str]:
         out = []
@@ -325,6 +338,8 @@ class ExcFlow:
             seen.add(cur)
             depth -= 1
             o = self._origin.get((cur, label))
+            if o is None:
+                o = next((v for (f, l), v in self._origin.items() if f == cur and plain(l) == plain(label)), None)
             if o is None:
                 break
             out.append('%s: %s%s' % (cur.rsplit('.', 2)[-2] + '.' + cur.rsplit('.', 1)[-1], o[0], (' -> ' + o[1]) if o[1] else ''))
